@@ -325,15 +325,15 @@ def term_display(t, f):
     raise ValueError(k)
 
 
-def oracle_text(syms, t, f, paren, top=True, terms=None):
+def oracle_text(syms, t, f, paren, top=True, terms=None, override=None):
     """simultaneous substitution; paren=True wraps every argument in parentheses"""
     if t[0] == "T":
         out = term_text(t, f)
         if top and not paren and len(out) > 2 and out[0] == "(" and out[-1] == ")":
             out = out[1:-1]
         return out
-    tpl = syms[t[1]].tpl[f]
-    ks = [oracle_text(syms, k, f, paren, False, terms) for k in t[3]]
+    tpl = override[t[1]] if override and t[1] in override else syms[t[1]].tpl[f]
+    ks = [oracle_text(syms, k, f, paren, False, terms, override) for k in t[3]]
 
     def rep(m):
         i = int(m.group(1))
@@ -374,6 +374,8 @@ static void pd(double d){uint64_t u;memcpy(&u,&d,8);printf(" d:%llu",(unsigned l
 static void pi(int i){printf(" i:%d",i);}
 static void ps(const char*s){printf(" s:");if(!*s)printf("-");for(;*s;++s)printf("%02x",(unsigned char)*s);}
 static double ud(uint64_t u){double d;memcpy(&d,&u,8);return d;}
+/* the interpreter's own formula of FSIGMOID (real.h): used only to attribute a value mismatch */
+static double vc19_sig(double x){ if (x >= 0.0) return 1.0 / (1.0 + exp(-x)); return exp(x) / (1.0 + exp(x)); }
 """
 
 CPP_PRELUDE = r"""
@@ -399,6 +401,21 @@ PARAMS = ", ".join("%s %s" % (CTYPE[d], n) for n, d in VARS)
 
 def c_function(i, dom, text):
     return "static %s vc19_%d(%s) { return %s ; }" % (CTYPE[dom], i, PARAMS, text)
+
+
+class OracleTimeout(Exception):
+    pass
+
+
+def sh_retry(cmd, timeout):
+    """C.sh with one retry; a second timeout (overloaded machine) raises OracleTimeout"""
+    for attempt in range(2):
+        try:
+            return C.sh(cmd, timeout=timeout)
+        except Exception as e:  # subprocess.TimeoutExpired
+            if "TimeoutExpired" not in type(e).__name__:
+                raise
+    raise OracleTimeout(" ".join(cmd[:2]))
 
 
 def compile_and_run(tag, progs, inputs_of):
@@ -439,13 +456,13 @@ def compile_and_run(tag, progs, inputs_of):
         main.append("return 0;}")
         with open(src, "w") as f:
             f.write("\n".join(lines) + "\n" + "\n".join(pre) + "\n" + "\n".join(main) + "\n")
-        rc, so, se = C.sh(["gcc", "-std=gnu11", "-O0", "-w", "-fno-builtin", "-ffp-contract=off", "-fmax-errors=0",
-                           src, "-o", exe, "-lm"], timeout=900)
+        rc, so, se = sh_retry(["gcc", "-std=gnu11", "-O0", "-w", "-fno-builtin", "-ffp-contract=off", "-fmax-errors=0",
+                               src, "-o", exe, "-lm"], 1200)
         if rc == 0:
             vals, start = {}, 0
             order = [p[0] for p in live]
             for _ in range(60):
-                rc2, so2, se2 = C.sh([exe, str(start)], timeout=600)
+                rc2, so2, se2 = sh_retry([exe, str(start)], 900)
                 done = 0
                 for ln in so2.splitlines():
                     t = ln.split()
@@ -496,7 +513,7 @@ def clang_trees(tag, lang, progs):
                 f.write("static auto vc19_%d(%s) { return %s ; }\n" % (pid, PARAMS, text.replace("\n", " ")))
     cmd = (["clang-14", "-std=gnu11"] if lang == "c" else ["clang++-14", "-std=c++17"]) + \
           ["-w", "-fsyntax-only", "-ferror-limit=0", "-Xclang", "-ast-dump", "-Xclang", "-ast-dump-filter=vc19_", src]
-    rc, so, se = C.sh(cmd, timeout=900)
+    rc, so, se = sh_retry(cmd, 1200)
     out, cur, rows = {}, None, []
 
     def flush():
@@ -934,8 +951,19 @@ def run(chk, replay=None):
     with cf.ThreadPoolExecutor(6) as ex:
         cj = [ex.submit(clang_job, "c", 0), ex.submit(clang_job, "cpp", 1)]
         gj = [ex.submit(gcc_job, i) for i in range(len(batches))]
-        clang_res = [j.result() for j in cj]
-        gcc_res = [j.result() for j in gj]
+        clang_res, gcc_res = [], []
+        for j in cj:
+            try:
+                clang_res.append(j.result())
+            except OracleTimeout as e:
+                chk.count("oracle_batches_skipped_timeout(clang)")
+                chk.notes.append("a clang AST batch timed out twice (overloaded machine): skipped, no verdict from it")
+        for j in gj:
+            try:
+                gcc_res.append(j.result())
+            except OracleTimeout as e:
+                chk.count("oracle_batches_skipped_timeout(gcc)")
+                chk.notes.append("a gcc batch timed out twice (overloaded machine): skipped, no verdict from it")
 
     for lang, f, A, B in clang_res:
         for pid in texts:
@@ -958,6 +986,7 @@ def run(chk, replay=None):
                 fail(pid, f, "clang-ast", "clang's parse differs from the parse of the fully parenthesised substitution")
 
     nval = nvoid = 0
+    mism = []         # (pid, j, got, want)
     for vals, errs in gcc_res:
         for pid, msg in errs.items():
             if msg.startswith("the compiled expression died"):
@@ -969,21 +998,54 @@ def run(chk, replay=None):
                 fail(pid, 0, "gcc-compile", "gcc rejects the C text: " + msg)
         for pid, got in vals.items():
             t = programs[pid][0]
+            has_fmax = "real::max" in symbols_of(t)
             for j, (g, w) in enumerate(zip(got, values[pid])):
                 if w in ("void", "exc"):
                     nvoid += 1
                     continue
                 nval += 1
+                if g != w and g.startswith("d:") and w.startswith("d:") and has_fmax and \
+                        bitsd(int(g[2:])) == 0.0 and bitsd(int(w[2:])) == 0.0:
+                    # +0 vs -0 only: C leaves the sign of fmax(+0,-0) unspecified (libm and the inlined
+                    # / folded forms differ), and a zero's sign can only propagate to another zero here
+                    chk.count("values_equal_up_to_sign_of_zero_with_fmax")
+                    continue
                 if g != w:
-                    kind = "value"
-                    det = "compiled C text returns %s, the interpreter %s on input %s" % (g, w, " ".join(inputs_of[pid][j]))
-                    if g.startswith("d:") and w.startswith("d:"):
-                        a, b = bitsd(int(g[2:])), bitsd(int(w[2:]))
-                        det += " (%r vs %r)" % (a, b)
-                        if math.isfinite(a) and abs(a - b) <= 1e-9 * max(abs(a), abs(b), 1e-300):
-                            kind = "value-rounding"
-                    fail(pid, 0, kind, det)
+                    mism.append((pid, j, g, w))
                     break
+
+    # attribute mismatches of programs with FSIGMOID: recompile the same text with the sigmoid
+    # sub-expressions replaced by the interpreter's own formula; if THAT agrees bit for bit on every
+    # input, the only cause is the formula difference (known finding), however much a later
+    # discontinuous primitive (fmod, floor, a comparison) amplified the last-bit difference
+    sig_ids = sorted({pid for pid, _, _, _ in mism if "real::sigmoid" in symbols_of(programs[pid][0])
+                      and texts[pid][0] == oracle_text(syms, programs[pid][0], 0, False)})
+    sig_only = set()
+    if sig_ids:
+        try:
+            v2, e2 = compile_and_run("run_sig", [(p, result_dom(syms, programs[p][0]),
+                                                  oracle_text(syms, programs[p][0], 0, False,
+                                                              override={"real::sigmoid": "vc19_sig(%%1%%)"}))
+                                                 for p in sig_ids], inputs_of)
+            for p in sig_ids:
+                if p in v2 and all(w in ("void", "exc") or g == w or
+                                   (g.startswith("d:") and w.startswith("d:") and "real::max" in symbols_of(programs[p][0])
+                                    and bitsd(int(g[2:])) == 0.0 and bitsd(int(w[2:])) == 0.0)
+                                   for g, w in zip(v2[p], values[p])):
+                    sig_only.add(p)
+        except OracleTimeout:
+            chk.count("oracle_batches_skipped_timeout(gcc)")
+    for pid, j, g, w in mism:
+        kind = "value"
+        det = "compiled C text returns %s, the interpreter %s on input %s" % (g, w, " ".join(inputs_of[pid][j]))
+        if g.startswith("d:") and w.startswith("d:"):
+            a, b = bitsd(int(g[2:])), bitsd(int(w[2:]))
+            det += " (%r vs %r)" % (a, b)
+        if pid in sig_only:
+            kind = "value-sigmoid-formula"
+            det += "; with every FSIGMOID sub-expression computed by the interpreter's formula " \
+                   "(x<0: exp(x)/(1+exp(x))) the same text agrees bit for bit on every input"
+        fail(pid, 0, kind, det)
     chk.count("values_compared", nval)
     chk.count("values_skipped_interpreter_void", nvoid)
     chk.count("programs_compiled_with_gcc", sum(len(v) for v, _ in gcc_res))
